@@ -1,7 +1,34 @@
-import CedarVerif.Lemmas.SyntaxChain
+import CedarVerif.Lemmas.SyntaxSound
+import CedarVerif.Lemmas.SyntaxSplitOn
+import CedarVerif.Cedar.Eval
 /-
 C05 — policy text → AST → text round trip.  Property theorems (every `theorem` here is an obligation).
 Model: Cedar/Syntax/{Token,Escape,Print,Parse}.lean.
+
+What is proved about `Parse.expr (Print.expr me e) = some e` (for every escape table `me`):
+* `parse_print_full : ParsePrintFull` — THE FULL STATEMENT: for every AST in `ParserImage` (what `cst_to_ast` can produce).
+  INSIDE: Bool / i64 (both boundary values) / string literals, entity-uid literals `T::"id"` (any escapes), variables,
+  slots, `!`, unary minus, `* + - == < <= in && ||` incl. the unparenthesised left-nested chains, `if-then-else`,
+  `e has attr`, `e.attr` / `e["attr"]` (identifier vs non-identifier / reserved-word names), `like` (any pattern),
+  `is T`, `contains containsAll containsAny isEmpty getTag hasTag`, extension functions (function style, any arity)
+  and extension methods (method style), set literals, record literals (strictly key-sorted; identifier, variable-name
+  and string keys), arbitrarily nested.  Desugared surface forms (`!= > >=`, `is T in e`, `has a.b.c`) are not ASTs;
+  the ASTs they lower to are inside.
+  OUTSIDE (= not in `ParserImage`, the parser never produces them): `.unknown` nodes, `&&`/`||` of two Boolean literals,
+  non-extension `call`s, extension methods without receiver, unsorted / duplicate-key records, out-of-range integers,
+  type names that are not `::`-separated unreserved identifiers.
+* `parse_image` — soundness of the image predicate: on well-formed tokens (`TokWF`: `IDENTIFIER` tokens have identifier
+  syntax) `Parse.expr` only returns `ParserImage` ASTs.
+* `parse_print_parse` — from text: every accepted token list `ts` with `Parse.expr ts = some e` satisfies
+  `Parse.expr (Print.expr me e) = some e`.
+* `round_trip_meaning`, `round_trip_meaning_text` — the re-parsed expression evaluates like the original (corollaries).
+* `parse_print_partial3` (fragment `inFrag3`, Lemmas/SyntaxMem.lean; = `ParserImage` by `inFrag3_parserImage` /
+  `parserImage_inFrag3`), `parse_print_partial` (the older, smaller fragment `inFrag2`, independent proof), `inFrag2_inFrag3`.
+Proof files: Lemmas/Syntax{Parse,Frag,Main,Chain}.lean (operators, chains), Syntax{Mem,Rec,Name,Prim,Full}.lean (`Member`
+level in continuation form, lists, records, names, the induction), SyntaxSound.lean (parser invariant), SyntaxSplitOn.lean
+(`intercalate "::" ∘ splitOn "::" = id` and the converse on identifiers, for the legacy byte-position `String.splitOn`).
+Not covered by theorems: policies / templates / annotations at the token level and the lexer (checked on the
+implementation by the harness); the nesting-depth limit of the real parser (the model has none).
 -/
 namespace Cedar.C05
 open Cedar Cedar.Syntax
@@ -91,8 +118,7 @@ def ParsePrintFull : Prop :=
 arbitrary strings (any escape table), variables, `!`, unary minus (`-(e)`, negative literals `(-n)`),
 `* + - == < <= in && ||` with the unparenthesised left-nested chains (`a + b + c`, `a - b - c`, `a && b && c` …),
 `e has attr` (identifier, reserved word or arbitrary string as attribute name), `if then else`, arbitrarily nested.
-Missing towards `ParsePrintFull`: member access / method and function calls, `like`, `is`, entity literals, sets,
-records, slots. -/
+Superseded by `parse_print_partial3` (kept: smaller fragment, independent proof). -/
 theorem parse_print_partial (mustEscape : Char → Bool) (e : Expr) (h : inFrag2 e = true) :
     Parse.expr (Print.expr mustEscape e) = some e := by
   unfold Parse.expr Print.expr
@@ -140,6 +166,265 @@ theorem inFrag_parserImage : ∀ k e, fsize e ≤ k → inFrag2 e = true → Par
       simp [ParserImage, ih e' (by omega) hf]
     all_goals (simp [inFrag2] at hf)
 
+/-! ### the whole parser image (modulo one library fact about `String.splitOn`) -/
+
+/-- `parse_print` on the fragment `inFrag3` (Lemmas/SyntaxMem.lean): **every constructor of `ParserImage`** —
+all of `inFrag2`, plus entity-uid literals `T::"id"` (any escapes in the id), slots `?principal` / `?resource`,
+member access `e.attr` / `e["attr"]` (identifier vs non-identifier / reserved-word attribute names), `like` with any
+pattern, `is T`, the method calls `contains containsAll containsAny isEmpty getTag hasTag`, extension functions in
+function style (`decimal(…) ip(…) datetime(…) duration(…) unknown(…)`, any argument count) and extension methods in
+method style (`a.lessThan(b)`, `a.isInRange(b)`, `a.offset(b)`, …), set literals `[e, …]`, record literals `{k: e, …}`
+(strictly key-sorted, identifier / variable-name / string keys), arbitrarily nested, with the printer's own
+parenthesisation (`maybe_with_parens`; unparenthesised `Member` operands `a.b.c(d)[“e”]`, left-nested chains).
+The only difference between `inFrag3` and `ParserImage`: a type name `ty` (in an entity literal or after `is`) must
+in addition satisfy the decidable side condition `"::".intercalate (ty.splitOn "::") = ty` — which always holds
+(`joinName_splitOn`, Lemmas/SyntaxSplitOn.lean), so the two predicates coincide; see `parse_print_full` below.  Forms the parser desugars (`!=`, `>`, `>=`, `e is T in e'`, `e has a.b.c`) are
+not ASTs: their images (`!(a == b)`, `!(a <= b)`, `!(a < b)`, `e is T && e in e'`, `e has a && e.a has b && …`) are
+in the fragment.  Outside: `.unknown` nodes, `&&`/`||` of two Boolean literals, non-extension `call`s, extension
+methods with no receiver, unsorted / duplicate-key records, out-of-range integers — none of which the parser produces. -/
+theorem parse_print_partial3 (mustEscape : Char → Bool) (e : Expr) (h : inFrag3 e = true) :
+    Parse.expr (Print.expr mustEscape e) = some e :=
+  parse_print_frag3 mustEscape e h
+
+theorem sortedKeys3_eq : ∀ kvs, sortedKeys3 kvs = strictSortedKeys kvs
+  | [] => rfl
+  | [_] => rfl
+  | (k1, _) :: (k2, v2) :: rest => by simp only [sortedKeys3, strictSortedKeys, sortedKeys3_eq ((k2, v2) :: rest)]
+
+theorem typeNameOk_valid {ty : String} (h : typeNameOk ty = true) : validTypeName ty = true := by
+  simp only [typeNameOk, Bool.and_eq_true] at h
+  exact h.1
+
+/-- every `inFrag3` expression is in the parser's image: `parse_print_partial3` is an instance of the full statement -/
+theorem inFrag3_parserImage : ∀ k e, sz3 e ≤ k → inFrag3 e = true → ParserImage e = true := by
+  intro k
+  induction k with
+  | zero => intro e hk; have := sz3_pos e; omega
+  | succ k ih =>
+    intro e hk hf
+    have L : ∀ es : List Expr, (∀ a ∈ es, sz3 a ≤ k) → inFrag3L es = true → ParserImageList es = true := by
+      intro es
+      induction es with
+      | nil => intro _ _; rfl
+      | cons a es ihl =>
+        intro hsz hfl
+        simp only [inFrag3L, Bool.and_eq_true] at hfl
+        simp only [ParserImageList, Bool.and_eq_true]
+        exact ⟨ih a (hsz a (by simp)) hfl.1, ihl (fun x hx => hsz x (by simp [hx])) hfl.2⟩
+    have K : ∀ kvs : List (String × Expr), (∀ kv ∈ kvs, sz3 kv.2 ≤ k) → inFrag3K kvs = true → ParserImageKVs kvs = true := by
+      intro kvs
+      induction kvs with
+      | nil => intro _ _; rfl
+      | cons kv kvs ihl =>
+        obtain ⟨k', a⟩ := kv
+        intro hsz hfl
+        simp only [inFrag3K, Bool.and_eq_true] at hfl
+        simp only [ParserImageKVs, Bool.and_eq_true]
+        exact ⟨ih a (hsz (k', a) (by simp)) hfl.1, ihl (fun x hx => hsz x (by simp [hx])) hfl.2⟩
+    cases e
+    case lit p => cases p <;> simp_all [inFrag3, ParserImage, typeNameOk_valid]
+    case var v => rfl
+    case slot s => rfl
+    case unknown n ty => simp [inFrag3] at hf
+    case ite c t e' =>
+      simp only [inFrag3, Bool.and_eq_true] at hf
+      simp only [sz3] at hk
+      simp [ParserImage, ih c (by omega) hf.1.1, ih t (by omega) hf.1.2, ih e' (by omega) hf.2]
+    case and a b =>
+      simp only [inFrag3, Bool.and_eq_true] at hf
+      simp only [sz3] at hk
+      simp [ParserImage, ih a (by omega) hf.1.1, ih b (by omega) hf.1.2, hf.2]
+    case or a b =>
+      simp only [inFrag3, Bool.and_eq_true] at hf
+      simp only [sz3] at hk
+      simp [ParserImage, ih a (by omega) hf.1.1, ih b (by omega) hf.1.2, hf.2]
+    case unaryApp op a =>
+      simp only [inFrag3] at hf
+      simp only [sz3] at hk
+      simp [ParserImage, ih a (by omega) hf]
+    case binaryApp op a b =>
+      simp only [inFrag3, Bool.and_eq_true] at hf
+      simp only [sz3] at hk
+      simp [ParserImage, ih a (by omega) hf.1, ih b (by omega) hf.2]
+    case call fn args =>
+      simp only [inFrag3, Bool.and_eq_true] at hf
+      simp only [sz3] at hk
+      simp only [ParserImage, Bool.and_eq_true]
+      exact ⟨hf.1, L args (fun a ha => by have := sz3L_mem ha; omega) hf.2⟩
+    case getAttr a x =>
+      simp only [inFrag3] at hf
+      simp only [sz3] at hk
+      simp [ParserImage, ih a (by omega) hf]
+    case hasAttr a x =>
+      simp only [inFrag3] at hf
+      simp only [sz3] at hk
+      simp [ParserImage, ih a (by omega) hf]
+    case like a x =>
+      simp only [inFrag3] at hf
+      simp only [sz3] at hk
+      simp [ParserImage, ih a (by omega) hf]
+    case is a x =>
+      simp only [inFrag3, Bool.and_eq_true] at hf
+      simp only [sz3] at hk
+      simp [ParserImage, ih a (by omega) hf.1, typeNameOk_valid hf.2]
+    case set es =>
+      simp only [inFrag3] at hf
+      simp only [sz3] at hk
+      simp only [ParserImage]
+      exact L es (fun a ha => by have := sz3L_mem ha; omega) hf
+    case record kvs =>
+      simp only [inFrag3, Bool.and_eq_true] at hf
+      simp only [sz3] at hk
+      simp only [ParserImage, Bool.and_eq_true]
+      exact ⟨by rw [← sortedKeys3_eq]; exact hf.1,
+        K kvs (fun kv hkv => by have := sz3K_mem (k := kv.1) (a := kv.2) hkv; omega) hf.2⟩
+
+/-- the one fact missing for the full statement: `intercalate ∘ splitOn = id` for the separator `::` -/
+def SplitOnJoin : Prop := ∀ ty : String, joinName (ty.splitOn "::") = ty
+
+/-- under `SplitOnJoin` the fragment is the whole parser image -/
+theorem parserImage_inFrag3 (sj : SplitOnJoin) : ∀ k e, sz3 e ≤ k → ParserImage e = true → inFrag3 e = true := by
+  have T : ∀ ty, validTypeName ty = true → typeNameOk ty = true := by
+    intro ty h
+    simp only [typeNameOk, Bool.and_eq_true, beq_iff_eq]
+    exact ⟨h, sj ty⟩
+  intro k
+  induction k with
+  | zero => intro e hk; have := sz3_pos e; omega
+  | succ k ih =>
+    intro e hk hf
+    have L : ∀ es : List Expr, (∀ a ∈ es, sz3 a ≤ k) → ParserImageList es = true → inFrag3L es = true := by
+      intro es
+      induction es with
+      | nil => intro _ _; rfl
+      | cons a es ihl =>
+        intro hsz hfl
+        simp only [ParserImageList, Bool.and_eq_true] at hfl
+        simp only [inFrag3L, Bool.and_eq_true]
+        exact ⟨ih a (hsz a (by simp)) hfl.1, ihl (fun x hx => hsz x (by simp [hx])) hfl.2⟩
+    have K : ∀ kvs : List (String × Expr), (∀ kv ∈ kvs, sz3 kv.2 ≤ k) → ParserImageKVs kvs = true → inFrag3K kvs = true := by
+      intro kvs
+      induction kvs with
+      | nil => intro _ _; rfl
+      | cons kv kvs ihl =>
+        obtain ⟨k', a⟩ := kv
+        intro hsz hfl
+        simp only [ParserImageKVs, Bool.and_eq_true] at hfl
+        simp only [inFrag3K, Bool.and_eq_true]
+        exact ⟨ih a (hsz (k', a) (by simp)) hfl.1, ihl (fun x hx => hsz x (by simp [hx])) hfl.2⟩
+    cases e
+    case lit p => cases p <;> simp_all [inFrag3, ParserImage]
+    case var v => rfl
+    case slot s => rfl
+    case unknown n ty => simp [ParserImage] at hf
+    case ite c t e' =>
+      simp only [ParserImage, Bool.and_eq_true] at hf
+      simp only [sz3] at hk
+      simp [inFrag3, ih c (by omega) hf.1.1, ih t (by omega) hf.1.2, ih e' (by omega) hf.2]
+    case and a b =>
+      simp only [ParserImage, Bool.and_eq_true] at hf
+      simp only [sz3] at hk
+      simp [inFrag3, ih a (by omega) hf.1.1, ih b (by omega) hf.1.2, hf.2]
+    case or a b =>
+      simp only [ParserImage, Bool.and_eq_true] at hf
+      simp only [sz3] at hk
+      simp [inFrag3, ih a (by omega) hf.1.1, ih b (by omega) hf.1.2, hf.2]
+    case unaryApp op a =>
+      simp only [ParserImage] at hf
+      simp only [sz3] at hk
+      simp [inFrag3, ih a (by omega) hf]
+    case binaryApp op a b =>
+      simp only [ParserImage, Bool.and_eq_true] at hf
+      simp only [sz3] at hk
+      simp [inFrag3, ih a (by omega) hf.1, ih b (by omega) hf.2]
+    case call fn args =>
+      simp only [ParserImage, Bool.and_eq_true] at hf
+      simp only [sz3] at hk
+      simp only [inFrag3, Bool.and_eq_true]
+      exact ⟨hf.1, L args (fun a ha => by have := sz3L_mem ha; omega) hf.2⟩
+    case getAttr a x =>
+      simp only [ParserImage] at hf
+      simp only [sz3] at hk
+      simp [inFrag3, ih a (by omega) hf]
+    case hasAttr a x =>
+      simp only [ParserImage] at hf
+      simp only [sz3] at hk
+      simp [inFrag3, ih a (by omega) hf]
+    case like a x =>
+      simp only [ParserImage] at hf
+      simp only [sz3] at hk
+      simp [inFrag3, ih a (by omega) hf]
+    case is a x =>
+      simp only [ParserImage, Bool.and_eq_true] at hf
+      simp only [sz3] at hk
+      simp [inFrag3, ih a (by omega) hf.1, T x hf.2]
+    case set es =>
+      simp only [ParserImage] at hf
+      simp only [sz3] at hk
+      simp only [inFrag3]
+      exact L es (fun a ha => by have := sz3L_mem ha; omega) hf
+    case record kvs =>
+      simp only [ParserImage, Bool.and_eq_true] at hf
+      simp only [sz3] at hk
+      simp only [inFrag3, Bool.and_eq_true]
+      exact ⟨by rw [sortedKeys3_eq]; exact hf.1,
+        K kvs (fun kv hkv => by have := sz3K_mem (k := kv.1) (a := kv.2) hkv; omega) hf.2⟩
+
+/-- The full statement, reduced to the single library fact `SplitOnJoin`. -/
+theorem parse_print_full_of_splitOn (sj : SplitOnJoin) : ParsePrintFull :=
+  fun me e h => parse_print_partial3 me e (parserImage_inFrag3 sj (sz3 e) e (Nat.le_refl _) h)
+
+/-- **C05, expression level, full statement**: for every AST the parser can produce and every behaviour of the
+`escape_debug` tables, parsing the printed form gives the AST back. -/
+theorem parse_print_full : ParsePrintFull := parse_print_full_of_splitOn joinName_splitOn
+
+-- the full theorem on a concrete AST
+example : Parse.expr (Print.expr (fun c => c.toNat ≥ 127)
+    (.is (.getAttr (.lit (.entityUID ⟨"Ns::User", "a\"b"⟩)) "if") "Ns::User")) =
+    some (.is (.getAttr (.lit (.entityUID ⟨"Ns::User", "a\"b"⟩)) "if") "Ns::User") :=
+  parse_print_full _ _ (by
+    have h : "Ns::User".splitOn "::" = ["Ns", "User"] := by split_on_eval
+    simp [ParserImage, validTypeName, h]
+    decide)
+
+/-- the old fragment is inside the new one -/
+theorem inFrag2_inFrag3 : ∀ k e, fsize e ≤ k → inFrag2 e = true → inFrag3 e = true := by
+  intro k
+  induction k with
+  | zero => intro e hk; have := fsize_pos e; omega
+  | succ k ih =>
+    intro e hk hf
+    cases e
+    case lit p => cases p <;> simp_all [inFrag2, inFrag3]
+    case var v => rfl
+    case ite c t e' =>
+      simp only [inFrag2, Bool.and_eq_true] at hf
+      simp only [fsize] at hk
+      simp [inFrag3, ih c (by omega) hf.1.1, ih t (by omega) hf.1.2, ih e' (by omega) hf.2]
+    case and a b =>
+      simp only [inFrag2, Bool.and_eq_true] at hf
+      simp only [fsize] at hk
+      simp [inFrag3, ih a (by omega) hf.1.1, ih b (by omega) hf.1.2, hf.2]
+    case or a b =>
+      simp only [inFrag2, Bool.and_eq_true] at hf
+      simp only [fsize] at hk
+      simp [inFrag3, ih a (by omega) hf.1.1, ih b (by omega) hf.1.2, hf.2]
+    case unaryApp op a =>
+      simp only [fsize] at hk
+      cases op <;> simp only [inFrag2] at hf
+      · simp [inFrag3, ih a (by omega) hf]
+      · simp [inFrag3, ih a (by omega) hf]
+      · simp at hf
+    case binaryApp op a b =>
+      simp only [inFrag2, Bool.and_eq_true] at hf
+      simp only [fsize] at hk
+      simp [inFrag3, ih a (by omega) hf.1.2, ih b (by omega) hf.2]
+    case hasAttr e' a =>
+      simp only [inFrag2] at hf
+      simp only [fsize] at hk
+      simp [inFrag3, ih e' (by omega) hf]
+    all_goals (simp [inFrag2] at hf)
+
 -- non-vacuity: `if !(-(1) - (-9223372036854775808) < principal * 2) && true || "a\"b" == context then -5 else 7 in resource`
 def sample : Expr :=
   .ite (.or (.and (.unaryApp .not (.binaryApp .less (.binaryApp .sub (.unaryApp .neg (.lit (.int 1))) (.lit (.int (-9223372036854775808))))
@@ -171,5 +456,86 @@ example : Print.expr (fun _ => false) (.hasAttr (.hasAttr (.var .context) "if") 
     [.lparen, .ident "context", .ident "has", .str ['i', 'f'], .rparen, .ident "has", .str ['a', ' ', 'b']] := by decide
 example : Parse.expr (Print.expr (fun _ => true) (.unaryApp .not (.hasAttr (.hasAttr (.var .context) "if") "a\"b"))) =
     some (.unaryApp .not (.hasAttr (.hasAttr (.var .context) "if") "a\"b")) := parse_print_partial _ _ (by decide)
+
+/-! ### from text: parse, print, parse again -/
+
+/-- Soundness of the image predicate: on well-formed tokens (`TokWF`: every `IDENTIFIER` token has identifier syntax,
+which the lexer guarantees) the parser only returns ASTs in `ParserImage`.  (Uses `splitOn_joinName`,
+`(intercalate "::" comps).splitOn "::" = comps` for identifiers, because `ParserImage` and the printer look at a type
+name through `String.splitOn`.) -/
+theorem parse_image (ts : List Token) (hwf : TokWF ts) (e : Expr) (h : Parse.expr ts = some e) :
+    ParserImage e = true :=
+  inFrag3_parserImage (sz3 e) e (Nat.le_refl _) (parse_sound splitOn_joinName hwf h)
+
+/-- The round trip starting from text: whatever the parser accepts, printing the AST (with any escape table) and
+parsing again gives the same AST — hence the same meaning.  (Token level.) -/
+theorem parse_print_parse (mustEscape : Char → Bool) (ts : List Token) (hwf : TokWF ts) (e : Expr)
+    (h : Parse.expr ts = some e) : Parse.expr (Print.expr mustEscape e) = some e :=
+  parse_print_partial3 mustEscape e (parse_sound splitOn_joinName hwf h)
+
+/-- "…and meaning": the re-parsed expression evaluates to the same result on every request, entity store and slot
+environment (immediate from `parse_print_full` / `parse_print_parse`; stated because the property says so). -/
+theorem round_trip_meaning (mustEscape : Char → Bool) (e : Expr) (h : ParserImage e = true)
+    (req : Request) (es : Entities) (env : SlotEnv) :
+    (Parse.expr (Print.expr mustEscape e)).map (evaluate req es env) = some (evaluate req es env e) := by
+  rw [parse_print_full mustEscape e h]; rfl
+
+theorem round_trip_meaning_text (mustEscape : Char → Bool) (ts : List Token) (hwf : TokWF ts) (e : Expr)
+    (h : Parse.expr ts = some e) (req : Request) (es : Entities) (env : SlotEnv) :
+    (Parse.expr (Print.expr mustEscape e)).map (evaluate req es env) = (Parse.expr ts).map (evaluate req es env) := by
+  rw [parse_print_parse mustEscape ts hwf e h, h]
+
+-- non-vacuity: `principal has a.b && resource != context.x` (desugared forms: `has a.b`, `!=`)
+example :
+    Parse.expr (Print.expr (fun _ => false)
+      (.and (.and (.hasAttr (.var .principal) "a") (.hasAttr (.getAttr (.var .principal) "a") "b"))
+            (.unaryApp .not (.binaryApp .eq (.var .resource) (.getAttr (.var .context) "x"))))) =
+    some (.and (.and (.hasAttr (.var .principal) "a") (.hasAttr (.getAttr (.var .principal) "a") "b"))
+            (.unaryApp .not (.binaryApp .eq (.var .resource) (.getAttr (.var .context) "x")))) :=
+  parse_print_parse _
+    [.ident "principal", .ident "has", .ident "a", .dot, .ident "b", .andand, .ident "resource", .neq, .ident "context", .dot, .ident "x"]
+    (by intro s hs; simp at hs; rcases hs with rfl | rfl | rfl | rfl | rfl | rfl | rfl <;> decide) _ (by rfl)
+
+/-! ### non-vacuity of `parse_print_partial3` -/
+
+theorem splitOn_NsUser : "Ns::User".splitOn "::" = ["Ns", "User"] := by split_on_eval
+theorem splitOn_datetime : "datetime".splitOn "::" = ["datetime"] := by split_on_eval
+theorem splitOn_Action : "Action".splitOn "::" = ["Action"] := by split_on_eval
+theorem typeNameOk_NsUser : typeNameOk "Ns::User" = true := by unfold typeNameOk; rw [splitOn_NsUser]; decide
+theorem typeNameOk_Action : typeNameOk "Action" = true := by unfold typeNameOk; rw [splitOn_Action]; decide
+
+-- `if principal is Ns::User && principal in Ns::User::"a\"b" then context.ip.isInRange(ip("10.0.0.0/8")) && [1, resource.tags["x y"]].contains(2)
+--    else {a: ?principal, "if": decimal("1.5").lessThan(context["true"]), principal: resource like "a*\*"}.a.getTag("k") == Action::"view"`
+def sample3 : Expr :=
+  .ite (.and (.is (.var .principal) "Ns::User") (.binaryApp .mem (.var .principal) (.lit (.entityUID ⟨"Ns::User", "a\"b"⟩))))
+       (.and (.call "isInRange" [.getAttr (.var .context) "ip", .call "ip" [.lit (.string "10.0.0.0/8")]])
+             (.binaryApp .contains (.set [.lit (.int 1), .getAttr (.getAttr (.var .resource) "tags") "x y"]) (.lit (.int 2))))
+       (.binaryApp .eq
+          (.binaryApp .getTag
+            (.getAttr (.record [("a", .slot .principal),
+                                ("if", .call "lessThan" [.call "decimal" [.lit (.string "1.5")], .getAttr (.var .context) "true"]),
+                                ("principal", .like (.var .resource) [.char 'a', .star, .char '*'])]) "a")
+            (.lit (.string "k")))
+          (.lit (.entityUID ⟨"Action", "view"⟩)))
+
+theorem sample3_inFrag3 : inFrag3 sample3 = true := by
+  simp [sample3, inFrag3, inFrag3L, inFrag3K, sortedKeys3, typeNameOk_NsUser, typeNameOk_Action, isBoolLit,
+    isExtFunction, isExtMethod, extFunctions, extMethods]
+  decide
+
+example : Parse.expr (Print.expr (fun c => c.toNat ≥ 127) sample3) = some sample3 :=
+  parse_print_partial3 _ _ sample3_inFrag3
+
+-- what the printer produces for member chains, method / function calls, sets, records (no type names: closed computation)
+example : Print.expr (fun _ => false)
+    (.binaryApp .add (.getAttr (.getAttr (.var .context) "a") "b c")
+      (.unaryApp .isEmpty (.call "offset" [.call "datetime" [.lit (.string "x")], .record [("k", .set []), ("like", .lit (.int (-1)))]]))) =
+    [.ident "context", .dot, .ident "a", .lbrack, .str ['b', ' ', 'c'], .rbrack, .plus,
+     .ident "datetime", .lparen, .str ['x'], .rparen, .dot, .ident "offset", .lparen,
+       .lbrace, .ident "k", .colon, .lbrack, .rbrack, .comma, .str ['l', 'i', 'k', 'e'], .colon, .lparen, .minus, .num 1, .rparen, .rbrace,
+     .rparen, .dot, .ident "isEmpty", .lparen, .rparen] := by
+  simp [Print.expr, printE, printEs, printEsTail, printKVs, printKVsTail, paren, needsParens, infixTok, isBin, isExtMethod, extMethods,
+    nameTokens, splitOn_datetime, keyTok, strTok, isNormalizedIdent, varName]
+  decide
 
 end Cedar.C05
